@@ -13,7 +13,7 @@ from __future__ import annotations
 import ast
 
 from ..cfg import build_cfg
-from ..common import Ctx, call_name, is_const, is_name, kwarg, src
+from ..common import inline_locals, Ctx, call_name, is_const, is_name, kwarg, src
 from ..explore import Explorer
 from ..model import AnalysisError, bind_call, own_scope_nodes
 
@@ -246,6 +246,18 @@ def kw_forward(ctx, names, vc, po, admm, icp, cp, init, ft):
             raise AnalysisError(f"KW-FORWARD: hop {caller.qname} -> {callee.name} vanished")
         for c, ct in sites:
             b = bind_call(c, callee, ct.bound)
+            # f(**spec) with spec = dict(k=k, ...) / {"k": k, ...}: the keywords are those of the literal
+            for sk in list(b.star_kwargs):
+                lit = inline_locals(caller.node, sk) if isinstance(sk, ast.Name) else sk
+                pairs = None
+                if isinstance(lit, ast.Call) and is_name(lit.func, "dict") and not lit.args and all(k.arg for k in lit.keywords):
+                    pairs = [(k.arg, k.value) for k in lit.keywords]
+                elif isinstance(lit, ast.Dict) and all(isinstance(k, ast.Constant) and isinstance(k.value, str) for k in lit.keys):
+                    pairs = [(k.value, v) for k, v in zip(lit.keys, lit.values)]
+                if pairs is not None:
+                    for k, v in pairs:
+                        if k in callee.all_params and k not in b.params:
+                            b.params[k] = v
             if not b.ok:
                 ctx.finding("KW-FORWARD", caller, c, f"call to {callee.name} does not bind: {b.problems}")
                 continue
